@@ -426,6 +426,17 @@ def gen_programs(run):
     yield ([[["play", "twohalf"], ["close"]], wait, True, 1], 2)
 
 
+def gen_deep(run):
+  """An endless player that the program stops (so close() returns for wait=True as well; a stop that
+  gets lost shows as a player that never ends), three control operations, one more deviation than
+  the general bound of the tier."""
+  t = TIERS[run.tier]
+  for wait in (False, True):
+    for seq in itertools.product([("pause", 0), ("resume", 0), ("stop", 0)], repeat=3):
+      if any(o[0] == "stop" for o in seq) or not wait:
+        yield ([[["play", "endless"]] + [list(o) for o in seq], wait, False, 1], t["one_player"]["bound"] + 1)
+
+
 def run_program(case):
   cfg, bound = case
   stats, first = explore(cfg, bound)
@@ -471,6 +482,8 @@ def LIOname(vid):
 KINDS = OrderedDict([
   ("programs", Kind(gen_programs, run_program, chunk=1, timeout=3600,
                     rule="one case = one main program; all schedules within the deviation bound are executed")),
+  ("deep-endless", Kind(gen_deep, run_program, chunk=1, timeout=3600,
+                        rule="an endless player stopped by the program, 3 control operations, deviation bound + 1")),
   ("stateful", Kind(gen_stateful, run_stateful, chunk=1, timeout=3600,
                     rule="one case = one main program with finite audio; ALL schedules (no deviation bound), "
                          "pruned only where the canonical state at a decision point was seen before")),
